@@ -25,6 +25,7 @@ struct ElemRegistry {
     queue_dying = false;
   }
   void err(const char* kind, const std::string& msg) {
+    xrt::Quiet q; // monitor state: never touched with scheduling points enabled
     if (error_kind.empty()) {
       error_kind = kind;
       error_msg = msg;
@@ -95,6 +96,7 @@ struct ElemRegistry {
       r.dtor_during_push = true; // legal only if the push rejects the value (by-value parameter destroyed)
   }
   bool alive(int64_t id) {
+    xrt::Quiet q;
     auto it = m.find(id);
     return it != m.end() && it->second.dtors == 0;
   }
